@@ -805,6 +805,11 @@ Plan genWire(const std::string& prop, int tier, uint64_t batchSeed, uint64_t idx
         const bool manyMsgs = r.chance(1, 25);
         if (manyMsgs)
             nm = r.chance(1, 2) ? static_cast<size_t>(r.pick<int64_t>({64, 93, 128, 256}) + r.range(-2, 3)) : 60 + r.below(341);
+        // one frame in twelve is a SERIES: 5-10 messages with the same kind, length, interface id and flags (one signal sampled
+        // again and again), of which a later one may be inconsistent inside - "the previous ones were fine" must not count
+        const bool series = !manyMsgs && nm > 0 && r.chance(1, 12);
+        if (series)
+            nm = 5 + r.below(6);
         size_t total = 8;
         // one frame in thirty is a jumbo frame: several large messages, more than 64 KiB in total
         const bool jumbo = r.chance(1, 30);
@@ -880,6 +885,28 @@ Plan genWire(const std::string& prop, int tier, uint64_t batchSeed, uint64_t idx
                     default:
                         m.set("p1o", r.range(0, std::max<int64_t>(1, len - 1))).set("p1v", static_cast<int64_t>(r.below(256)));
                         break;
+                }
+            }
+            if (series && k > 0)
+            {
+                const Item& first = op.sub.front();
+                for (const char* key : {"kind", "len", "ifid", "flags", "ptype"})
+                {
+                    if (first.has(key))
+                        m.set(key, first.get(key));
+                    else
+                        m.erase(key);
+                }
+                for (const char* key : {"ilen", "iwhich", "izero", "ilen2", "iwhich2", "p1o", "p1v", "rawbody"})
+                    m.erase(key);
+                if (first.has("rawbody"))
+                    m.set("rawbody", 1);
+                if (k >= 4 && first.get("kind") != 0 && r.chance(1, 2))
+                {
+                    if (r.chance(1, 2))
+                        m.set("p1o", static_cast<int64_t>(r.below(2))).set("p1v", 1LL << r.below(8));  // a bus-error flag
+                    else
+                        m.set("ilen", r.pick<int64_t>({0xFF, 0x7FFF, 0xFFFF, first.get("len") + 1})).set("iwhich", 0);
                 }
             }
             op.sub.push_back(std::move(m));
